@@ -10,6 +10,7 @@ import (
 	"os"
 	"strings"
 	"sync"
+	"sync/atomic"
 	"time"
 
 	"verifharness/hx"
@@ -64,6 +65,7 @@ func backendMisbehave(w http.ResponseWriter, r *http.Request, tok string) bool {
 // chaosShim sits between the agent and the real proxy and injects a fault into the calls that
 // belong to marked requests.
 type chaosShim struct {
+	silent  bool // volume scenarios: no per-call events
 	ln      net.Listener
 	srv     *http.Server
 	target  string
@@ -80,6 +82,12 @@ func newChaosShim(target string) *chaosShim {
 	c.srv = &http.Server{Handler: http.HandlerFunc(c.serve)}
 	go c.srv.Serve(c.ln)
 	return c
+}
+
+func (c *chaosShim) emit(ev string, kv ...interface{}) {
+	if !c.silent {
+		hx.Emit(ev, kv...)
+	}
 }
 
 func (c *chaosShim) url() string { return "http://" + c.ln.Addr().String() + "/" }
@@ -113,7 +121,7 @@ func (c *chaosShim) serve(w http.ResponseWriter, r *http.Request) {
 		c.mu.Unlock()
 		if n%5 == 3 {
 			// a failing list call that loses no IDs: the agent must back off and list again
-			hx.Emit("ListFault", "n", n)
+			c.emit("ListFault", "n", n)
 			http.Error(w, "chaos: list failure", 503)
 			return
 		}
@@ -130,14 +138,14 @@ func (c *chaosShim) serve(w http.ResponseWriter, r *http.Request) {
 			first := c.faulted[id] == 1
 			c.mu.Unlock()
 			if first {
-				hx.Emit("PostFault", "id", id)
+				c.emit("PostFault", "id", id)
 			}
 			http.Error(w, "chaos: upload rejected", 500)
 		case "post-garble":
 			b, _ := io.ReadAll(r.Body)
 			b = append([]byte("NOT-HTTP "), b...)
 			c.forward(w, r, bytes.NewReader(b))
-			hx.Emit("PostFault", "id", id)
+			c.emit("PostFault", "id", id)
 		case "post-cut":
 			// the upload reaches the proxy, but the connection dies in the middle of the posted response's
 			// header block (an agent that crashes or times out while uploading); the agent sees a reset
@@ -157,7 +165,7 @@ func (c *chaosShim) serve(w http.ResponseWriter, r *http.Request) {
 			first := c.faulted[id] == 1
 			c.mu.Unlock()
 			if first {
-				hx.Emit("PostFault", "id", id)
+				c.emit("PostFault", "id", id)
 			}
 			if hj, ok := w.(http.Hijacker); ok {
 				if conn, _, err := hj.Hijack(); err == nil {
@@ -211,7 +219,7 @@ func (c *chaosShim) serve(w http.ResponseWriter, r *http.Request) {
 			c.pathOf[id] = cached.path
 			c.mu.Unlock()
 			if strings.HasPrefix(victimKind(cached.path), "fetch-") {
-				hx.Emit("FetchFault", "id", id)
+				c.emit("FetchFault", "id", id)
 			}
 		}
 		switch victimKind(cached.path) {
@@ -357,6 +365,81 @@ func relayFaults(a *Args) {
 			e.stop()
 		}
 	}
+	faultVolume(res)
+}
+
+// faultVolume: many exchanges fail in the same way over the life of one agent (here: the upload of the response is
+// reset on every attempt), one after the other with healthy requests in between; after the last of them healthy
+// requests are still served.  No per-request events (hooks off); one summary event.
+func faultVolume(res *hx.Result) {
+	victims := 130
+	if hx.Thorough() {
+		victims = 1100
+	}
+	hx.Reset("fault-volume", "relay-fault-volume:post-reset")
+	e := &relayEnv{md: hx.StartMetadata(), backend: newEchoBackend()}
+	e.backend.silent = true
+	var err error
+	e.proxy, e.port, err = hx.StartProxy(hx.Bin("proxy"), []string{"VERIF_TRACE="})
+	if err != nil {
+		res.Bad("cannot start proxy: %v", err)
+		e.stop()
+		return
+	}
+	shim := newChaosShim(e.proxyAddr())
+	shim.silent = true
+	defer shim.close()
+	defer e.stop()
+	e.agent, err = hx.StartAgent(hx.Bin("agent"), e.md, shim.url(), e.backend.addr(), "agent", nil, []string{"VERIF_TRACE="})
+	if err != nil {
+		res.Bad("cannot start agent: %v", err)
+		return
+	}
+	var ok, wrong, unanswered, other int64
+	var example atomic.Value
+	healthy := func(path string) {
+		k, t := relayClientOpt(e.proxyAddr(), path, 15*time.Second, false)
+		switch {
+		case k == "ok" && t == path:
+			atomic.AddInt64(&ok, 1)
+		case k == "none":
+			atomic.AddInt64(&unanswered, 1)
+			example.Store("no response for " + path)
+		case k == "ok" || strings.HasPrefix(k, "mixed"):
+			atomic.AddInt64(&wrong, 1)
+			example.Store(fmt.Sprintf("request %s received the response of %s (%s)", path, t, k))
+		default:
+			atomic.AddInt64(&other, 1)
+			example.Store(fmt.Sprintf("request %s: %s", path, k))
+		}
+	}
+	healthy("/t/xwarm0000/b10/l0/q0/m2")
+	healthyN := 1
+	// victims in groups of ten at a time (their clients give up after 0.4 s), a healthy request after every group
+	for g := 0; g*10 < victims; g++ {
+		var wg sync.WaitGroup
+		for i := 0; i < 10 && g*10+i < victims; i++ {
+			wg.Add(1)
+			go func(n int) {
+				defer wg.Done()
+				relayClientOpt(e.proxyAddr(), fmt.Sprintf("/t/xvictim%05d/b100/l0/q0/m1/vpost-reset", n), 400*time.Millisecond, false)
+			}(g*10 + i)
+		}
+		wg.Wait()
+		healthy(fmt.Sprintf("/t/xhealthy%04d/b50/l0/q0/m0", g))
+		healthyN++
+	}
+	time.Sleep(1500 * time.Millisecond) // the last uploads have failed for good
+	for i := 0; i < 5; i++ {
+		healthy(fmt.Sprintf("/t/xafter%04d/b50/l0/q0/m1", i))
+		healthyN++
+	}
+	aEx, _ := e.agent.Exited()
+	pEx, _ := e.proxy.Exited()
+	ex, _ := example.Load().(string)
+	hx.Emit("FaultVolume", "victims", victims, "healthy", healthyN, "ok", ok, "wrong", wrong, "unanswered", unanswered, "other", other,
+		"agent_alive", !aEx, "proxy_alive", !pEx, "example", ex)
+	res.Case("fault-volume:post-reset", map[string]interface{}{"failed_exchanges": victims, "healthy_requests": healthyN, "healthy_ok": ok})
 }
 
 // MsgShapes are the JSON shapes a shim data call may carry as "msg": the shapes the shim accepts
